@@ -287,6 +287,98 @@ fn relayed_header_edits(rep: &mut Report, tier: &Tier) {
     }
 }
 
+/// (8) a peer block whose golden-ticket transaction spends a real output and pays a fee (the miner's
+/// wallet never builds one, the rules admit it): the fee is part of what the block collects. At
+/// every C01 position, fee 700 and 0 (control), offered to a node at the tip; an adopted block is
+/// applied to the reference ledger and judged by the conservation oracle, as is the honest block
+/// that follows it.
+fn fee_paying_golden_ticket(rep: &mut Report, tier: &Tier) {
+    use super::c01::positions;
+    use crate::node::{block_bytes, golden_ticket_tx, txmap};
+    let ps = match positions(tier) {
+        Ok(p) => p,
+        Err(e) => {
+            rep.machinery(format!("fee-paying golden ticket: no positions: {}", e));
+            return;
+        }
+    };
+    for p in ps.iter() {
+        let w = &p.w;
+        let g = w.cfg.consensus.genesis_period;
+        let tip = p.tip;
+        let h = w.blocks[tip].id + 1;
+        let ts = w.blocks[tip].ts + 2 * crate::factory::SPACING;
+        let k1 = key(1);
+        let Some(s) = w.ledgers[tip].unspent_of(&k1.public).into_iter().find(|s| s.amount > 10_000 && s.block_id + g >= h && s.slip_type == saito_core::core::consensus::slip::SlipType::Normal) else {
+            rep.outcome("gt-fee:position-without-a-payer-output");
+            continue;
+        };
+        for fee in [0u64, 700] {
+            let ctx = json!({"position": p.name, "golden_ticket_fee": fee});
+            rep.evaluations += 1;
+            let Ok(node) = w.builder_at(tip) else {
+                rep.machinery(format!("fee-paying golden ticket: no builder at {}", p.name));
+                continue;
+            };
+            let difficulty = node.blockchain.try_read().unwrap().get_block(&w.blocks[tip].hash).map(|b| b.difficulty).unwrap_or(0);
+            let pay = make_tx(&[s.clone()], &[(k1.public, s.amount - fee)], &k1, ts, b"gt");
+            let mut gt = golden_ticket_tx(w.blocks[tip].hash, difficulty, &k1, 0);
+            gt.from = pay.from.clone();
+            gt.to = pay.to.clone();
+            gt.timestamp = ts;
+            gt.sign(&k1.private);
+            gt.generate(&w.creator.public, 0, 0);
+            let creator = w.creator;
+            let phash = w.blocks[tip].hash;
+            let filler = {
+                let mut t = make_tx(&[], &[(key(5).public, 0)], &key(5), ts, b"f");
+                t.generate(&creator.public, 0, 0);
+                t
+            };
+            let bc = node.blockchain.clone();
+            let cfg = node.cfg.clone();
+            let storage = &node.storage;
+            let made = crate::exec::run(async {
+                let bc = bc.read().await;
+                let mut map = txmap(vec![filler]);
+                saito_core::core::consensus::block::Block::create(&mut map, phash, &bc, ts, &creator.public, &creator.private, Some(gt), &cfg, storage).await
+            });
+            let blk = match made {
+                Outcome::Done(Ok(b)) => b,
+                _ => {
+                    rep.outcome("gt-fee:producer-refused");
+                    continue;
+                }
+            };
+            let bytes = block_bytes(&blk);
+            let Ok(mut n) = w.node_at(tip, key(9)) else {
+                rep.machinery(format!("fee-paying golden ticket: no node at {}", p.name));
+                continue;
+            };
+            let before = n.tip().1;
+            rep.transitions += 1;
+            match n.add_block_bytes(&bytes) {
+                Outcome::Done(_) => {}
+                o => {
+                    rep.violate(if o.label().contains("total supply") { "supply-panic/golden-ticket-paying-a-fee" } else { "abort/golden-ticket-paying-a-fee" }, format!("{}: {}", ctx, o.label()), ctx.clone());
+                    continue;
+                }
+            }
+            if n.tip().1 == before {
+                rep.outcome(if fee == 0 { "gt-fee:control-refused" } else { "gt-fee:block-refused" });
+                continue;
+            }
+            let mut l = w.ledgers[tip].clone();
+            l.apply(&decode_block(&bytes));
+            match supply_check(&n, &l, w.initial_supply, g) {
+                Err(e) => rep.violate("supply-mismatch/golden-ticket-paying-a-fee", format!("{}: {}", ctx, e), ctx.clone()),
+                Ok(_) => rep.outcome(if fee == 0 { "gt-fee:control-accepted-and-conserved" } else { "gt-fee:accepted-and-conserved" }),
+            }
+            rep.distinct.insert(format!("gtfee|{}|{}", p.name, fee));
+        }
+    }
+}
+
 /// (5) NFT histories: the C13 producer histories in which an NFT is minted (with and without
 /// change) and, one to three blocks later, its payload is or is not spent on its own, through two
 /// window wraps, with the conservation oracle after every accepted block.
@@ -351,6 +443,7 @@ pub fn main(tier: Tier, _replay: Option<String>) -> i32 {
     adversarial(&mut rep, &tier);
     nft_histories(&mut rep, &tier);
     relayed_header_edits(&mut rep, &tier);
+    fee_paying_golden_ticket(&mut rep, &tier);
     // (6) reorganisation attempts that fail part-way
     super::c04::supply_after_failed_reorgs(&mut rep, &tier);
     rep.sample(json!({"script": format!("{:?}", ss[1].rounds), "g": ss[1].g}));
